@@ -25,6 +25,21 @@ def shards(tier, seed):
     return out
 
 
+def nb_variant(v):
+    """v with the nb mark of its NP atoms toggled (removed if present anywhere, added to bare NP atoms otherwise)"""
+    has = any(a[1] == 'NP' and a[2] == ('U', 'nb') for a in refcat.atoms(v))
+
+    def rec(x):
+        if x[0] == 'F':
+            return ('F', rec(x[1]), x[2], rec(x[3]))
+        if x[1] == 'NP' and has and x[2] == ('U', 'nb'):
+            return ('A', 'NP', None)
+        if x[1] == 'NP' and not has and x[2] is None:
+            return ('A', 'NP', ('U', 'nb'))
+        return x
+    return rec(v)
+
+
 def one_case(rng, R, sample=False):
     from depccg.parsing import apply_category_filters
     from depccg.types import Token, ScoringResult
@@ -32,6 +47,15 @@ def one_case(rng, R, sample=False):
     inv = gens.inventory('en')
     ncat = rng.randint(4, 40)
     cats_ref = rng.sample(inv, ncat)
+    if rng.random() < 0.3:
+        # categories that differ only in an [nb] mark are different tags (NP[nb]/N and NP/N are both in the shipped inventory's
+        # alphabet); a dictionary entry names exactly one of them
+        for c in rng.sample(cats_ref, min(3, len(cats_ref))):
+            v = nb_variant(c)
+            if v != c and v not in cats_ref:
+                cats_ref.insert(rng.randrange(len(cats_ref) + 1), v)
+        ncat = len(cats_ref)
+        R.count('filter:lists-with-nb-twins')
     cats = [refcat.from_ref(c) for c in cats_ref]
     vocab = [f'w{i}' for i in range(rng.randint(2, 12))] + ['(', ',', 'The', 'the']
     nsent = rng.randint(1, 6)
